@@ -3,7 +3,7 @@ package prune
 import (
 	"fmt"
 	"os"
-	"runtime/pprof"
+	"syscall"
 	"sort"
 
 	"github.com/0chain/common/core/util"
@@ -52,19 +52,35 @@ func debugChurn(w *ledger.World, r *ledger.Runner, in churnInput) {
 	}
 }
 
-var profFile *os.File
+// real (not bubble) time accounting for development
+var sect = map[string]int64{}
 
-func profStart() {
-	if fn := os.Getenv("VERIF_PROF"); fn != "" && profFile == nil {
-		profFile, _ = os.Create(fn)
-		pprof.StartCPUProfile(profFile)
-	}
+func realNow() int64 {
+	var tv syscall.Timeval
+	syscall.Gettimeofday(&tv)
+	return tv.Sec*1e6 + int64(tv.Usec)
 }
 
+func timeSect(name string) func() {
+	if os.Getenv("VERIF_PROF") == "" {
+		return func() {}
+	}
+	t := realNow()
+	return func() { sect[name] += realNow() - t }
+}
+
+func profStart() {}
+
 func profStop() {
-	if profFile != nil {
-		pprof.StopCPUProfile()
-		profFile.Close()
-		profFile = nil
+	if os.Getenv("VERIF_PROF") == "" {
+		return
+	}
+	var ks []string
+	for k := range sect {
+		ks = append(ks, k)
+	}
+	sort.Strings(ks)
+	for _, k := range ks {
+		fmt.Fprintf(os.Stderr, "SECT %-20s %8.1f ms\n", k, float64(sect[k])/1000)
 	}
 }
